@@ -79,7 +79,11 @@ def run(ctx):
     ctx.rule("R5-sibling", "tables implementing the same mapping in different places agree arm by arm")
     ctx.rule("R5-encpair", "row-wise encoder: each XRange::from is preceded (latest dominating finish) by XEncoder::finish of the same family")
     ctx.rule("R5-order", "bundle ID_CTR_INVERSE: writer and reader sort keys are (elem.0, elem.1) with the actor as first component on both sides")
+    ctx.rule("R5-body", "the payload handed to the DEFLATE encoder in Compressed::compress is the chunk body to its end: Change::body_bytes slices self.bytes from header.len() with an open end (or an end taken from len())")
     f = ctx.facts()
+    from . import C10
+    C10.check_mapper(ctx, f)            # rebuilt changes (bundles, get_changes, save) hash to the original only with a per-change actor table
+    check_body(ctx, f)
     ae, _ = tbl(ctx, f, T["action_enc"])
     ad, _ = tbl(ctx, f, T["action_dec"])
     inverse_check(ctx, "Action<->u64", ae, ad, 8, ("err",))
@@ -213,3 +217,36 @@ def check_inverse_order(ctx, f):
     ctx.floor("change-metadata tuple constructions in the reader", len(maps), 1)
     for m in maps:
         ctx.ob("R5-order", "reader|element is (change.actor, change.seq, start_op, max_op)", m[:2] == [[".actor"], [".seq"]], rb.rec["sp"], "element components %s" % m)
+
+
+def check_body(ctx, f):
+    """Compressed::compress deflates Change::body_bytes(); from_bytes of the compressed form inflates it and parses header + body, taking what follows
+    the op columns as extra_bytes. The two agree only if the deflated slice runs to the end of the chunk."""
+    CB = "automerge::storage::change::compressed::Compressed::<'a>::compress"
+    BB = "automerge::storage::change::Change::<'_, O>::body_bytes"
+    cb = ctx.body(CB)
+    bb = ctx.body(BB)
+    enc = [(bi, t) for bi, t in cb.calls() if (norm_fn(t.get("fn")) or "").endswith("DeflateEncoder::new")]
+    ctx.floor("DeflateEncoder::new in Compressed::compress", len(enc), 1)
+    for bi, t in enc:
+        pv = cb.provenance(t["args"][0], through_calls=True)
+        ok = any(norm_fn(c).endswith("Change::body_bytes") for c in pv.callees())
+        ctx.ob("R5-body", "Compressed::compress|deflates body_bytes()", ok, t["sp"], "reader = change.body_bytes()" if ok else "the deflated input is not Change::body_bytes()")
+    idx = [(bi, t) for bi, t in bb.calls() if (norm_fn(t.get("fn")) or "").endswith(("Index::index", "slice::<impl [T]>::get", "split_at"))]
+    ctx.floor("slice operations in Change::body_bytes", len(idx), 1)
+    for k, (bi, t) in util.ordinal_keys(idx, lambda it: "Change::body_bytes|slice"):
+        ga = " ".join(t.get("ga", []))
+        if "RangeFrom<" in ga or (norm_fn(t.get("fn")) or "").endswith("split_at"):
+            ctx.ob("R5-body", k, True, t["sp"], "open-ended slice from the end of the header")
+            continue
+        # a closed range: its end must be the length of the buffer, not a column / field boundary
+        d = bb.single_def(bb.operand_origin(t["args"][1])[0]) if bb.operand_origin(t["args"][1]) else None
+        end = None
+        if d and d[1] != "t" and d[2]["rv"]["k"] == "Agg" and "end" in d[2]["rv"].get("fields", []):
+            end = d[2]["rv"]["o"][d[2]["rv"]["fields"].index("end")]
+        pv = bb.provenance(end if end is not None else t["args"][1], through_calls=True)
+        end_is_len = end is not None and any(norm_fn(c).split("::")[-1] == "len" and not norm_fn(c).startswith("automerge::") for c in pv.callees())
+        fields = sorted({"".join(pr) for _, pr in [bb.origin(l, pr_) for l, pr_ in pv.places] if any(x in "".join(pr) for x in (".ops_data", ".extra_bytes", ".ops_meta"))})
+        ok = end_is_len and not fields
+        ctx.ob("R5-body", k, ok, t["sp"], "range ends at len()" if ok else
+               "the compressed body stops at a column boundary (%s) instead of the end of the chunk: bytes after it (extra_bytes) are lost when the change is compressed, so from_bytes(compressed) has another hash" % (fields or "not len()"))
